@@ -9,6 +9,10 @@ CONSTANTS
   DoScan = FALSE
   TrigonalFixed = TRUE
   BigHkls = {}
+  BlockSize = 0
+  ListMax = 0
+  ListPool = {}
+  ListSizes = {}
   ConcPairs = {{"cubic"}, {"hexagonal"}, {"trigonal"}, {"rhombohedralP"}, {"tetragonal"}, {"orthorhombic"}, {"monoclinic_c"}, {"monoclinic_a"}, {"monoclinic_b"}, {"triclinic"}, {"monoclinic_c", "orthorhombic"}, {"orthorhombic", "monoclinic_b"}, {"monoclinic_b", "tetragonal"}, {"monoclinic_a", "triclinic"}, {"trigonal", "rhombohedralP"}, {"hexagonal", "monoclinic_c"}, {"triclinic", "cubic"}, {"orthorhombic", "tetragonal"}, {"monoclinic_a", "monoclinic_b"}}
   CoarseNames = {"cubic", "hexagonal"}
   Stride = 8
